@@ -168,6 +168,53 @@ class _FakeDatetimeModule:
         return getattr(self._real, k)
 
 
+def module_state():
+    """Address-free rendering of the process-global mutable state of the vsg package: module
+    globals and class attributes that are data (not functions, classes, modules)."""
+    import types
+
+    from vsim.api_engine import canon
+
+    out = {}
+    for name, mod in list(sys.modules.items()):
+        if not (name == "vsg" or name.startswith("vsg.")) or mod is None:
+            continue
+        for k, v in list(vars(mod).items()):
+            if k.startswith("__") or isinstance(v, (types.ModuleType, types.FunctionType)):
+                continue
+            if isinstance(v, type):
+                if v.__module__ != name:
+                    continue
+                for ck, cv in list(vars(v).items()):
+                    if ck.startswith("__") or callable(cv) or isinstance(cv, (staticmethod, classmethod, property)):
+                        continue
+                    out[name + "." + k + "::" + ck] = canon(cv)
+                continue
+            out[name + "." + k] = canon(v)
+    return out
+
+
+_STATE = {"base": None, "reported": ()}
+
+
+def state_drift_probe(ctl, when):
+    """Probe only (never a verdict): which process-global vsg state differs from what it was when
+    this process took its first file?  A long-lived worker whose state drifts is where a result can
+    start to depend on the files seen before."""
+    try:
+        cur = module_state()
+    except Exception:
+        return
+    if _STATE["base"] is None:
+        _STATE["base"] = cur
+        return
+    base = _STATE["base"]
+    drift = tuple(sorted(k for k in set(cur) | set(base) if cur.get(k) != base.get(k)))
+    if drift and drift != _STATE["reported"]:
+        _STATE["reported"] = drift
+        ctl.out("sim", "state-drift %s %s\n" % (when, " ".join(drift[:6])))
+
+
 def install_task_wrapper():
     """In the warm parent: wrap vsg.apply_rules.apply_rules so that file-processing order and task
     boundaries are observable.  Pass-through without a simulation context."""
@@ -186,9 +233,19 @@ def install_task_wrapper():
             c.ctl.task_begin(tIndexFileName)
         except Exception:
             return real(commandLineArguments, oConfig, tIndexFileName)
+        c.depth += 1
+        try:
+            state_drift_probe(c.ctl, "before:%s" % (tIndexFileName[1],))
+        finally:
+            c.depth -= 1
         try:
             return real(commandLineArguments, oConfig, tIndexFileName)
         finally:
+            c.depth += 1
+            try:
+                state_drift_probe(c.ctl, "after:%s" % (tIndexFileName[1],))
+            finally:
+                c.depth -= 1
             c.ctl.task_end()
 
     apply_rules._vsim_wrapped = True
